@@ -36,6 +36,16 @@ def gen(rng, n):
                 if decoy != anc:
                     extra += [['f', decoy + '/info/' + nm, 'decoy'], ['f', decoy + '/files/' + nm, 'decoy'], ['f', decoy + '/info/' + nm + '.trashinfo', 'decoy']]
             argv_td = ['--trash-dir', anc]
+        real_tds = None
+        if not argv_td and rng.random() < 0.15:
+            # a trash dir named through <symlink to a directory>/.. : the kernel resolves it to the PARENT OF THE LINK'S TARGET, not to
+            # what is left when 'link/..' is struck out of the string; a look-alike sits at the struck-out path and must stay untouched
+            nm = rng.choice(['via2', 'a', 'foo'])
+            extra += [['d', '/deep/in', 0o755], ['l', '/lnk', '/deep/in']]
+            extra += scen.entry('/deep/real2', nm, '/home/u/' + nm, '2001-01-01T00:00:00', rng.choice(['f', 'd', 'l']))
+            extra += scen.entry('/real2', nm, '/home/u/' + nm, '2001-01-01T00:00:00', rng.choice(['f', 'd']))
+            argv_td = ['--trash-dir', '/lnk/../real2']
+            real_tds = ['/deep/real2']
         cmd = rng.choice(['empty', 'empty', 'rm'])
         step = {'cmd': cmd, 'argv': [], 'listdir': rng.choice(['sorted', 'reverse', rng.randint(1, 99)])}
         if cmd == 'empty':
@@ -71,7 +81,7 @@ def judge(run, scn, meta, res, section='state'):
     after = o['after']
     case = {'scenario': scn, 'meta': meta}
     run.count(section)
-    tds = [engine.physical(before, os.path.normpath(t) + '/x')[:-2] for t in meta.get('tds') or engine.trash_dirs_in(before)]
+    tds = [engine.kresolve(before, t + '/x')[:-2] for t in meta.get('tds') or engine.trash_dirs_in(before)]
     ch = [p for p in engine.changed_paths(before, after, ignore_dir_mtime=False) if not inside_purge_area(p, tds)]
     # the files/ and info/ directories themselves may get a new mtime when an entry is unlinked
     ch = [p for p in ch if not (p.endswith('/files') or p.endswith('/info')) or before.get(p, ('',))[:3] != after.get(p, ('',))[:3]]
@@ -83,7 +93,7 @@ def judge(run, scn, meta, res, section='state'):
     for name, args, r in (t[:3] for t in o['trace']):
         if name in ('remove', 'unlink', 'rmtree'):
             p = args[0]
-            phys = engine.physical(before, os.path.normpath(p)) if p.startswith('/') else p
+            phys = engine.kresolve(before, p) if p.startswith('/') else p
             d, x = os.path.split(p)
             if not valid_name(x) or os.path.basename(d) not in ('files', 'info') or not inside_purge_area(phys, tds):
                 bad.append(p)
@@ -102,6 +112,24 @@ def run(run, thorough):
     by_id = {id(s): m for s, m in zip(scns, metas)}
     for scn, res in out:
         judge(run, scn, by_id[id(scn)], res)
+    # the same purges with ONE system call inside them refused (EACCES on an unlink / rmdir in the middle of a removal): whatever the
+    # command then does to recover, nothing outside files/ and info/ may change - not even a mode
+    import copy
+    import errno
+    faulted, fmetas = [], []
+    for scn, res in out:
+        muts = res['steps'][0].get('muts') or []
+        ks = [k + 1 for k, m in enumerate(muts) if m in ('unlink', 'rmdir')]
+        if not ks or len(faulted) >= (120 if not thorough else 1500):
+            continue
+        s2 = copy.deepcopy(scn)
+        s2['steps'][0]['plan'] = {'sysfault': [run.rng.choice(ks), run.rng.choice([errno.EACCES, errno.EPERM, errno.EBUSY])]}
+        faulted.append(s2)
+        fmetas.append(by_id[id(scn)])
+    outf = engine.run_all(run, 'purge-faulted', faulted, strict=False)
+    byf = {id(s): m for s, m in zip(faulted, fmetas)}
+    for scn, res in outf:
+        judge(run, scn, byf[id(scn)], res, section='state-faulted')
     if out:
         s = out[0][0]
         run.sample({'level': 'state', 'step': [s['steps'][0]['cmd'], s['steps'][0]['argv']],
